@@ -566,7 +566,10 @@ class AnsiString:
         '''
         if isinstance(val, int):
             st = val
-            en = val + 1
+            if st < 0:
+                # Negative index counts from the end (self._s[val] below raises IndexError if out of range)
+                st += len(self._s)
+            en = st + 1
         elif isinstance(val, slice):
             if val.step is not None and val.step != 1:
                 raise ValueError('Step other than 1 not supported')
